@@ -8,6 +8,11 @@ has_duplicate_apk_signature_ids WITH fixes/C33-sigblock-sequences-v31.diff appli
 Spec: AgVerif.Spec.SigBlock — the block layout of the APK Signature Scheme documents
 (`encodeBlock`, `encodeValue`, `encodeSeq`, `apkFile`, `reported`).
 
+Note on `toModel`: the reported signer `_bytes` is NOT "as encoded": the code slices
+`view[off : off + size_signer]` starting AT the length prefix, so it is the prefix plus the body
+without its last four bytes (a code quirk, modelled as is; `_bytes` is not among the property's
+observables — digests, certificates, SDK bounds, attributes, signatures, public keys are).
+
 All theorems quantify over every list of pairs / signers / digests of any length and any bytes
 that fit their length fields (PairWF / SignerWF / ItemWF), every prefix `pre` (the local entries),
 every central directory body and every 12 bytes of EOCD counters.
@@ -183,5 +188,48 @@ example : hasDuplicate (parseOuter (apkFile [7, 7, 7] [(idV31, encodeValue true 
 example : (List.replicate 24 7).drop (24 - 16) ≠ magic := by decide
 example : parseScheme .v31 (apkFile [7, 7, 7] [(0x42726577, [0, 0]), (idV31, encodeValue true [exSigner])]
       [0, 0] (List.replicate 12 0)) = .ok [toModel true exSigner] := by decide +kernel
+
+/-! Non-vacuity of the WHOLE-FILE theorems: a concrete file satisfies `FileWF`, a concrete signer
+    satisfies `SignerWF`, and the end-to-end theorems are instantiated on them (not just evaluated). -/
+def exPairs : List Pair := [(0x42726577, [0, 0]), (idV31, encodeValue true [exSigner]), (idV31, [1])]
+def exPairsV3 : List Pair := [(idV3, encodeValue true [exSigner, exSigner]), (idV2, [])]
+
+theorem exSigner_wf : SignerWF true exSigner := by
+  refine ⟨?_, ?_, ?_, by decide +kernel, by decide +kernel, by decide +kernel, by decide +kernel, by decide +kernel⟩
+  · intro x hx; simp only [exSigner, List.mem_cons, List.not_mem_nil, or_false] at hx
+    rcases hx with rfl | rfl <;> exact ⟨by decide +kernel, by decide +kernel⟩
+  · intro x hx; simp only [exSigner, List.mem_cons, List.not_mem_nil, or_false] at hx
+    rcases hx with rfl | rfl | rfl <;> exact ⟨by decide +kernel, by decide +kernel⟩
+  · intro c hc; simp only [exSigner, List.mem_cons, List.not_mem_nil, or_false] at hc
+    rcases hc with rfl | rfl <;> decide +kernel
+
+theorem exFile_wf : FileWF [7, 7, 7] exPairs (List.replicate 12 0) := by
+  refine ⟨?_, by decide +kernel, by decide +kernel⟩
+  intro p hp; simp only [exPairs, List.mem_cons, List.not_mem_nil, or_false] at hp
+  rcases hp with rfl | rfl | rfl <;> exact ⟨by decide +kernel, by decide +kernel⟩
+
+theorem exFileV3_wf : FileWF [1, 2, 3, 4] exPairsV3 (List.replicate 12 9) := by
+  refine ⟨?_, by decide +kernel, by decide +kernel⟩
+  intro p hp; simp only [exPairsV3, List.mem_cons, List.not_mem_nil, or_false] at hp
+  rcases hp with rfl | rfl <;> exact ⟨by decide +kernel, by decide +kernel⟩
+
+/-- `v31_without_v3` instantiated: a file with an unknown pair, a v3.1 pair, a duplicate v3.1 pair and
+    NO v3 pair reports exactly the first v3.1 pair's signer. -/
+example : parseScheme .v31 (apkFile [7, 7, 7] exPairs [0, 0] (List.replicate 12 0)) =
+    .ok [toModel true exSigner] :=
+  v31_without_v3 [7, 7, 7] exPairs [0, 0] (List.replicate 12 0) exFile_wf [exSigner]
+    (by intro s hs; simp only [List.mem_cons, List.not_mem_nil, or_false] at hs; subst hs; exact exSigner_wf)
+    (by decide +kernel) (by decide +kernel)
+
+/-- `file_signers_v3` instantiated on a file with two v3 signers and an (empty) v2 pair. -/
+example : parseScheme .v3 (apkFile [1, 2, 3, 4] exPairsV3 [5] (List.replicate 12 9)) =
+    .ok [toModel true exSigner, toModel true exSigner] :=
+  file_signers_v3 [1, 2, 3, 4] exPairsV3 [5] (List.replicate 12 9) exFileV3_wf [exSigner, exSigner]
+    (by intro s hs; simp only [List.mem_cons, List.not_mem_nil, or_false] at hs; rcases hs with rfl | rfl <;> exact exSigner_wf)
+    (by decide +kernel) (by decide +kernel)
+
+/-- the other whole-file theorems on the same concrete file: duplicate v3.1 id flagged, flags (0,0,1) -/
+example : hasDuplicate (parseOuter (apkFile [7, 7, 7] exPairs [0, 0] (List.replicate 12 0))) = true :=
+  (duplicate_flag_spec [7, 7, 7] exPairs [0, 0] (List.replicate 12 0) exFile_wf).2 (by decide +kernel)
 
 end AgVerif.C33
